@@ -219,7 +219,7 @@ func (e *encoderCborBytes) kArrayWMbs(rv reflect.Value, ti *typeInfo, isSlice bo
 	e.mapStart(l >> 1)
 
 	var fn *encFnCborBytes
-	builtin := ti.tielem.flagEncBuiltin
+	builtin := e.builtinElem(ti.tielem, ti.elemkind)
 	if !builtin {
 		fn = e.kSeqFn(ti.elem)
 	}
@@ -264,14 +264,14 @@ func (e *encoderCborBytes) kArrayW(rv reflect.Value, ti *typeInfo, isSlice bool)
 	e.arrayStart(l)
 
 	var fn *encFnCborBytes
-	if !ti.tielem.flagEncBuiltin {
+	builtin := e.builtinElem(ti.tielem, ti.elemkind)
+	if !builtin {
 		fn = e.kSeqFn(ti.elem)
 	}
 
 	j := 0
 	e.c = containerArrayElem
 	e.e.WriteArrayElem(true)
-	builtin := ti.tielem.flagEncBuiltin
 	for {
 		rvv := rvArrayIndex(rv, j, ti, isSlice)
 		if builtin {
@@ -409,7 +409,7 @@ func (e *encoderCborBytes) kStructSimple(f *encFnInfo, rv reflect.Value) {
 		for j, si = range tisfi {
 			e.c = containerArrayElem
 			e.e.WriteArrayElem(j == 0)
-			if si.encBuiltin {
+			if e.builtinField(si) {
 				e.encodeIB(rv2i(si.fieldNoAlloc(rv, true)))
 			} else {
 				e.encodeValue(si.fieldNoAlloc(rv, !chkCirRef), nil)
@@ -431,7 +431,7 @@ func (e *encoderCborBytes) kStructSimple(f *encFnInfo, rv reflect.Value) {
 			e.e.WriteMapElemKey(j == 0)
 			e.e.EncodeStringNoEscape4Json(si.encName)
 			e.mapElemValue()
-			if si.encBuiltin {
+			if e.builtinField(si) {
 				e.encodeIB(rv2i(si.fieldNoAlloc(rv, true)))
 			} else {
 				e.encodeValue(si.fieldNoAlloc(rv, !chkCirRef), nil)
@@ -485,7 +485,7 @@ func (e *encoderCborBytes) kStruct(f *encFnInfo, rv reflect.Value) {
 					continue
 				}
 			} else {
-				kv.r = si.fieldNoAlloc(rv, si.encBuiltin || !chkCirRef)
+				kv.r = si.fieldNoAlloc(rv, !chkCirRef || e.builtinField(si))
 			}
 			kv.v = si
 			fkvs[newlen] = kv
@@ -519,7 +519,7 @@ func (e *encoderCborBytes) kStruct(f *encFnInfo, rv reflect.Value) {
 			for j = 0; j < newlen; j++ {
 				kv = fkvs[j]
 				mf2w[j] = encStructFieldObj{kv.v.encName, kv.r, nil, true,
-					!kv.v.encNameEscape4Json, kv.v.encBuiltin}
+					!kv.v.encNameEscape4Json, e.builtinField(kv.v)}
 			}
 			for _, v := range mf2s {
 				mf2w[j] = encStructFieldObj{v.v, reflect.Value{}, v.i, false, false, false}
@@ -560,7 +560,7 @@ func (e *encoderCborBytes) kStruct(f *encFnInfo, rv reflect.Value) {
 					e.kStructFieldKey(keytyp, kv.v.encName)
 				}
 				e.mapElemValue()
-				if kv.v.encBuiltin {
+				if e.builtinField(kv.v) {
 					e.encodeIB(rv2i(baseRVRV(kv.r)))
 				} else {
 					e.encodeValue(kv.r, nil)
@@ -592,7 +592,7 @@ func (e *encoderCborBytes) kStruct(f *encFnInfo, rv reflect.Value) {
 					kv.r = reflect.Value{}
 				}
 			} else {
-				kv.r = si.fieldNoAlloc(rv, si.encBuiltin || !chkCirRef)
+				kv.r = si.fieldNoAlloc(rv, !chkCirRef || e.builtinField(si))
 			}
 			kv.v = si
 			fkvs[i] = kv
@@ -610,7 +610,7 @@ func (e *encoderCborBytes) kStruct(f *encFnInfo, rv reflect.Value) {
 			kv = fkvs[j]
 			if !kv.r.IsValid() {
 				e.e.EncodeNil()
-			} else if kv.v.encBuiltin {
+			} else if e.builtinField(kv.v) {
 				e.encodeIB(rv2i(baseRVRV(kv.r)))
 			} else {
 				e.encodeValue(kv.r, nil)
@@ -676,8 +676,8 @@ func (e *encoderCborBytes) kMap(f *encFnInfo, rv reflect.Value) {
 	var it mapIter
 	mapRange(&it, rv, rvk, rvv, true)
 
-	kbuiltin := f.ti.tikey.flagEncBuiltin
-	vbuiltin := f.ti.tielem.flagEncBuiltin
+	kbuiltin := e.builtinElem(f.ti.tikey, f.ti.keykind)
+	vbuiltin := e.builtinElem(f.ti.tielem, f.ti.elemkind)
 	for j := 0; it.Next(); j++ {
 		rv = it.Key()
 		e.c = containerMapKey
@@ -4295,7 +4295,7 @@ func (e *encoderCborIO) kArrayWMbs(rv reflect.Value, ti *typeInfo, isSlice bool)
 	e.mapStart(l >> 1)
 
 	var fn *encFnCborIO
-	builtin := ti.tielem.flagEncBuiltin
+	builtin := e.builtinElem(ti.tielem, ti.elemkind)
 	if !builtin {
 		fn = e.kSeqFn(ti.elem)
 	}
@@ -4340,14 +4340,14 @@ func (e *encoderCborIO) kArrayW(rv reflect.Value, ti *typeInfo, isSlice bool) {
 	e.arrayStart(l)
 
 	var fn *encFnCborIO
-	if !ti.tielem.flagEncBuiltin {
+	builtin := e.builtinElem(ti.tielem, ti.elemkind)
+	if !builtin {
 		fn = e.kSeqFn(ti.elem)
 	}
 
 	j := 0
 	e.c = containerArrayElem
 	e.e.WriteArrayElem(true)
-	builtin := ti.tielem.flagEncBuiltin
 	for {
 		rvv := rvArrayIndex(rv, j, ti, isSlice)
 		if builtin {
@@ -4485,7 +4485,7 @@ func (e *encoderCborIO) kStructSimple(f *encFnInfo, rv reflect.Value) {
 		for j, si = range tisfi {
 			e.c = containerArrayElem
 			e.e.WriteArrayElem(j == 0)
-			if si.encBuiltin {
+			if e.builtinField(si) {
 				e.encodeIB(rv2i(si.fieldNoAlloc(rv, true)))
 			} else {
 				e.encodeValue(si.fieldNoAlloc(rv, !chkCirRef), nil)
@@ -4507,7 +4507,7 @@ func (e *encoderCborIO) kStructSimple(f *encFnInfo, rv reflect.Value) {
 			e.e.WriteMapElemKey(j == 0)
 			e.e.EncodeStringNoEscape4Json(si.encName)
 			e.mapElemValue()
-			if si.encBuiltin {
+			if e.builtinField(si) {
 				e.encodeIB(rv2i(si.fieldNoAlloc(rv, true)))
 			} else {
 				e.encodeValue(si.fieldNoAlloc(rv, !chkCirRef), nil)
@@ -4561,7 +4561,7 @@ func (e *encoderCborIO) kStruct(f *encFnInfo, rv reflect.Value) {
 					continue
 				}
 			} else {
-				kv.r = si.fieldNoAlloc(rv, si.encBuiltin || !chkCirRef)
+				kv.r = si.fieldNoAlloc(rv, !chkCirRef || e.builtinField(si))
 			}
 			kv.v = si
 			fkvs[newlen] = kv
@@ -4595,7 +4595,7 @@ func (e *encoderCborIO) kStruct(f *encFnInfo, rv reflect.Value) {
 			for j = 0; j < newlen; j++ {
 				kv = fkvs[j]
 				mf2w[j] = encStructFieldObj{kv.v.encName, kv.r, nil, true,
-					!kv.v.encNameEscape4Json, kv.v.encBuiltin}
+					!kv.v.encNameEscape4Json, e.builtinField(kv.v)}
 			}
 			for _, v := range mf2s {
 				mf2w[j] = encStructFieldObj{v.v, reflect.Value{}, v.i, false, false, false}
@@ -4636,7 +4636,7 @@ func (e *encoderCborIO) kStruct(f *encFnInfo, rv reflect.Value) {
 					e.kStructFieldKey(keytyp, kv.v.encName)
 				}
 				e.mapElemValue()
-				if kv.v.encBuiltin {
+				if e.builtinField(kv.v) {
 					e.encodeIB(rv2i(baseRVRV(kv.r)))
 				} else {
 					e.encodeValue(kv.r, nil)
@@ -4668,7 +4668,7 @@ func (e *encoderCborIO) kStruct(f *encFnInfo, rv reflect.Value) {
 					kv.r = reflect.Value{}
 				}
 			} else {
-				kv.r = si.fieldNoAlloc(rv, si.encBuiltin || !chkCirRef)
+				kv.r = si.fieldNoAlloc(rv, !chkCirRef || e.builtinField(si))
 			}
 			kv.v = si
 			fkvs[i] = kv
@@ -4686,7 +4686,7 @@ func (e *encoderCborIO) kStruct(f *encFnInfo, rv reflect.Value) {
 			kv = fkvs[j]
 			if !kv.r.IsValid() {
 				e.e.EncodeNil()
-			} else if kv.v.encBuiltin {
+			} else if e.builtinField(kv.v) {
 				e.encodeIB(rv2i(baseRVRV(kv.r)))
 			} else {
 				e.encodeValue(kv.r, nil)
@@ -4752,8 +4752,8 @@ func (e *encoderCborIO) kMap(f *encFnInfo, rv reflect.Value) {
 	var it mapIter
 	mapRange(&it, rv, rvk, rvv, true)
 
-	kbuiltin := f.ti.tikey.flagEncBuiltin
-	vbuiltin := f.ti.tielem.flagEncBuiltin
+	kbuiltin := e.builtinElem(f.ti.tikey, f.ti.keykind)
+	vbuiltin := e.builtinElem(f.ti.tielem, f.ti.elemkind)
 	for j := 0; it.Next(); j++ {
 		rv = it.Key()
 		e.c = containerMapKey
